@@ -653,6 +653,10 @@ def refine_droplet(
         vmax = np.max(data_mask)
     vrng = vmax - vmin
 
+    if adjust_values and vrng == 0:
+        # all intensities are identical, so they cannot be adjusted by fitting
+        adjust_values = False
+
     if adjust_values:
         # fit intensities in addition to all droplet parameters
 
